@@ -9,6 +9,14 @@ seeds=${@:-$(ls -d $V/seeded/C*/ | xargs -n1 basename | sort -V)}
 declare -A RELATED=( [C01]="C14 C07" [C02]="C03 C06" [C03]="C02 C06" [C04]="C06" [C05]="C13" [C06]="C02 C03 C04" [C07]="C01" [C08]="C01 C11" [C09]="" [C10]="C01" [C11]="C08 C01" [C12]="C17" [C13]="C05" [C14]="C01" [C15]="" [C16]="" [C17]="C12" [C18]="" [C19]="" [C20]="C13" )
 out=$V/seeded/MATRIX.md
 [ $# -gt 0 ] && out=$V/seeded/MATRIX.part.md     # a partial run does not overwrite the full matrix
+# SM_OWN_ONLY=1: only the check of the property the change breaks. SM_SHARD=k/n: every n-th seed starting with the
+# k-th (several shards can run side by side; each writes MATRIX.shard-k.md, tools/merge_matrix.sh joins them)
+if [ -n "$SM_SHARD" ]; then
+  k=${SM_SHARD%%/*}; n=${SM_SHARD##*/}
+  seeds=$(echo $seeds | tr ' ' '\n' | awk -v k=$k -v n=$n 'NR % n == k % n')
+  out=$V/seeded/MATRIX.shard-$k.md
+fi
+[ -n "$SM_OWN_ONLY" ] && for p in "${!RELATED[@]}"; do RELATED[$p]=""; done
 echo "# Seeded changes vs checks (tier $tier, /repo $(git -C /repo rev-parse --short HEAD), $(date -u +%F))" > $out
 echo >> $out
 echo "| seed | needs | own check | related checks |" >> $out
